@@ -128,6 +128,10 @@ def gen_case(rnd, idx):
             spec["lim"][k0] = [-b, -a] if rnd.random() < 0.5 else [b, a]
     if kind == "Rectifier" and "vdrop" not in spec["p"]:
         spec["p"]["vdrop"] = 0.0  # mandatory in the file schema
+    if kind == "Rectifier" and not isinstance(spec["p"]["vdrop"], dict) and spec["p"]["vdrop"] != 0.0 and rnd.random() < 0.25:
+        # diode mode ignores rs/ig/iq: whatever the constructor accepts there
+        # (here a table it would refuse in MOSFET mode) the file may hold too
+        spec["p"]["ig"] = {"vi": [5.0], "io": [0.1, 0.05], "ig": [[1e-3, 2e-3]]}
     if kind == "Converter" and isinstance(spec["p"]["eff"], (int, float)):
         spec["p"]["eff"] = float(spec["p"]["eff"])
     return spec
@@ -291,6 +295,17 @@ def run_case(spec, damages="all"):
             if not judge("\n".join(ls) + "\n", "missing-mandatory", "mandatory key %s lost" % mk_):
                 return out, stats, nt
             nt.add((kind, keyset, "nomand"))
+        # ---- surplus book-keeping entries of any TOML type: the file still holds P and L
+        for where in ("section", "table"):
+            extra = ['part_no = "X-%d"' % len(lines), "characterised = 2024-05-17", "checked = 1979-05-27T07:32:00", "rev = 3", "tags = [\"a\", \"b\"]"]
+            if where == "section":
+                ls = [lines[0]] + extra + lines[1:]
+            else:
+                ls = lines + ["", "[part]"] + extra
+            stats["fault:surplus_entries"] += 1
+            if not judge("\n".join(ls) + "\n", "surplus-entries", "book-keeping entries in the %s" % where):
+                return out, stats, nt
+            nt.add((kind, keyset, "surplus"))
         # ---- value-type flips (generic loader only)
         if kind in TYPE_FLIP_KINDS:
             for key, val in params.items():
@@ -301,7 +316,7 @@ def run_case(spec, damages="all"):
                 elif isinstance(val, list):
                     flips = ['"x"', "true", '""', "false"]
                 else:
-                    flips = [json.dumps(repr(float(val))), "true", '""', "false"]
+                    flips = [json.dumps(repr(float(val))), "true", '""', "false", "2024-05-17", "1979-05-27T07:32:00"]
                     if not (kind in ("PMux", "Rectifier") and key == "rs"):
                         flips.append("[%s]" % repr(float(val)))
                 for fv in flips:
